@@ -128,12 +128,27 @@ def run(ctx):
     # test of the *shape* of what remains (the current node is no longer an SLinkedList / is Nil), never on a payload
     # field such as `count` — stopping one node early hands make_linked_list a last element it may splice
     from cfg import BodyCfg
-    ucfg = BodyCfg(U)
-    ps = w.paths({me: frozenset(["SLinkedList"])})
+    # the function that holds the walk: the renamer itself, or a private helper it hands lists to (`recreate_list`)
+    S_ = Solver(prog, ctx)
+    LF, list_loops = U, []
+    for fb in [U] + [x for x in prog.lib_bodies() if x.path in S_.family(U.path) and x.path != U.path]:
+        rb = {i for i, t in fb.calls() if (t["callee"].get("resolved") or t["callee"].get("path") or "") == U.path}
+        ll = [(h, bl) for h, bl in BodyCfg(fb).loops().items() if bl & rb]
+        if ll:
+            LF, list_loops = fb, ll
+            break
+    if LF is U:
+        ps = w.paths({me: frozenset(["SLinkedList"])})
+        lmp = mp
+    else:
+        ctx.fn(LF)
+        # inside the helper nothing of the family is walked into: its own blocks are what the rule looks at
+        ps = Walker(LF, max_visits=2, inline=inline.helpers(prog, keep=REN + ("make_linked_list",) + tuple(
+            x.split("::")[-1] for x in S_.family(U.path)))).paths()
+        lmp = next((("param", k, LF.locals[k].get("name") or "") for k in range(1, LF.mir["arg_count"] + 1)
+                    if "HashMap<std::string::String, usize>" in LF.locals[k]["s"]), None)
     ctx.stats["paths_walked"] += len(ps)
     okl, whyl, nl = True, "", 0
-    ren_blocks = {i for i, t in U.calls() if (t["callee"].get("resolved") or t["callee"].get("path") or "") == U.path}
-    list_loops = [(h, bl) for h, bl in ucfg.loops().items() if bl & ren_blocks]
 
     def shape_test(c):
         if c[0] == "variant":
@@ -163,9 +178,9 @@ def run(ctx):
         for e in p.calls():
             if e["callee"].endswith("::push"):
                 v = strip(e["args"][1])
-                if not (v[0] == "call" and v[1] == U.path and strip(v[2][1]) == mp):
+                if not (v[0] == "call" and v[1] == U.path and strip(v[2][1]) == lmp):
                     okl, whyl = False, "a list element %s is pushed that is not the renamed element (same map)" % show(v)[:60]
-    ctx.ob("R4", "term(SLinkedList)", okl and nl > 0 and bool(list_loops), ctx.where(U), whyl or
+    ctx.ob("R4", "term(SLinkedList)", okl and nl > 0 and bool(list_loops), ctx.where(LF), whyl or
            "every node's term is renamed under the same map; the walk ends only where the list ends (%d paths)" % nl)
     # goal / operator / built-in renamers keep the variant and the functor
     for path, kinds in (("goal::Goal::recreate_variables", ("OperatorGoal", "ComplexGoal", "BuiltInGoal")),
@@ -468,7 +483,11 @@ def run(ctx):
                     ok, why = False, "the restored id was not read just before this clause was fetched"
     ctx.ob("R3", "restore-only-after-failed-head", ok and n > 0, ctx.where(E), why or
            "set_var_id(get_var_id() taken before the fetch) only on the failed-head path (%d events)" % n)
-    # LogicVar construction in solver-reachable code
+    # LogicVar construction in solver-reachable code (the renamer and the answer builder, with what they are split into)
+    allowed_makers = set(S.family(U.path))
+    RV = prog.one("unifiable::Unifiable::replace_variables")
+    if RV is not None:
+        allowed_makers |= S.family(RV.path)
     reach = cg.reach([E.path])
     bad = None
     n = 0
@@ -479,7 +498,7 @@ def run(ctx):
                 if s["k"] == "assign" and s["rv"]["k"] == "aggregate" and s["rv"].get("variant") == "LogicVar" and \
                         s["rv"].get("adt", "").endswith("Unifiable"):
                     n += 1
-                    if b.path not in (U.path, "unifiable::Unifiable::replace_variables") and "Clone" not in b.path:
+                    if b.path not in allowed_makers and "Clone" not in b.path:
                         bad = (b, s)
     ctx.ob("R3", "variables-made-only-by-renaming", bad is None and n > 0, ctx.where(bad[0], bad[1]["line"]) if bad else "",
            "a logic variable is constructed in solver-reachable code outside recreate_variables / replace_variables / Clone" if bad
